@@ -460,10 +460,11 @@ func (ssc *defaultStatefulSetControl) updateStatefulSet(
 			if err := ssc.podControl.DeleteStatefulPod(set, replicas[i]); err != nil {
 				return &status, err
 			}
-			if getPodRevision(replicas[i]) == currentRevision.Name {
+			// a terminating Pod was not counted as current/updated above, so there is nothing to take back
+			if getPodRevision(replicas[i]) == currentRevision.Name && !isTerminating(replicas[i]) {
 				status.CurrentReplicas--
 			}
-			if getPodRevision(replicas[i]) == updateRevision.Name {
+			if getPodRevision(replicas[i]) == updateRevision.Name && !isTerminating(replicas[i]) {
 				status.UpdatedReplicas--
 			}
 			status.Replicas--
